@@ -103,6 +103,8 @@ let con_case (line : string) : string =
         | CCb (r, st, _) -> add (Printf.sprintf "k%d:%s" (int_of_nat r) (string_of_z st))
         | CLost _ -> ()
         | CUsable _ -> ()
+        | CWcb -> add "v"
+        | CScb -> add "y"
         | CClosed -> add "x"
         | CReg n -> add (Printf.sprintf "q%d" (int_of_nat n))) evs;
       (* the harness then closes every handle and lets the loop finish (callbacks do nothing):
